@@ -42,7 +42,7 @@ func (r *recorder) genType(depth int, embedded bool) gomodel.M {
 	case 4:
 		return gomodel.Str()
 	case 5:
-		return []gomodel.M{gomodel.ByteSlice(), gomodel.Slice(), gomodel.Map()}[r.rnd.Intn(3)]
+		return []gomodel.M{gomodel.ByteSlice(), gomodel.Slice(), gomodel.Map(), {"g": "number", "lit": []interface{}{}}}[r.rnd.Intn(4)]
 	case 6:
 		return gomodel.TSlice(r.genType(depth-1, false))
 	case 7:
@@ -56,7 +56,10 @@ func (r *recorder) genType(depth int, embedded bool) gomodel.M {
 
 func scalarKind(t gomodel.M) bool {
 	g := t["g"]
-	return g == "bool" || g == "int" || g == "float" || g == "str"
+	if g == "ptr" {
+		g = t["v"].(gomodel.M)["g"]
+	}
+	return g == "bool" || g == "int" || g == "float" || g == "str" || g == "number"
 }
 
 func (r *recorder) genStruct(depth int, embedded bool) gomodel.M {
@@ -181,6 +184,11 @@ func (r *recorder) genFor(t gomodel.M, depth int) *jsonread.Value {
 		return jsonread.Num(r.pick(floatLits))
 	case "str":
 		return jsonread.Str(r.pick(strPool))
+	case "number":
+		if r.rnd.Intn(3) == 0 {
+			return jsonread.Str(r.pick([]string{"1", "-0.5e3", "1e400", "", "x", "01", "1 ", "0x1"}))
+		}
+		return jsonread.Num(r.pick(floatLits))
 	case "bytes":
 		if r.rnd.Intn(5) == 0 {
 			return []*jsonread.Value{jsonread.Null(), jsonread.Num("1"), jsonread.Obj(), jsonread.Bool(true)}[r.rnd.Intn(4)]
@@ -289,7 +297,13 @@ func (r *recorder) genQuoted(t gomodel.M) *jsonread.Value {
 	case 2:
 		return jsonread.Str(r.pick([]string{"", "null", "nil", "true", "false", "tru", "\"a\"", "\"a", "\"\\u00e9\"", "x", "-", "+1"}))
 	}
-	switch t["g"] {
+	g := t["g"]
+	if g == "ptr" {
+		g = t["v"].(gomodel.M)["g"]
+	}
+	switch g {
+	case "number":
+		return jsonread.Str(r.pick([]string{"1.5", "-0", "1x", "\"1\"", "\"x\"", "true", "07", "1e400"}))
 	case "bool":
 		return jsonread.Str(r.pick([]string{"true", "false", "null", "1", "\"true\""}))
 	case "int":
